@@ -683,6 +683,21 @@ class Result(list):
     def all(self):
         return list(self)
 
+    fetchall = all
+
+    def first(self):
+        return self[0] if len(self) else None
+
+    def one(self):
+        assert len(self) == 1
+        return self[0]
+
+    def scalar(self):
+        return self[0][0] if len(self) else None
+
+    def scalars(self):
+        return Result(r[0] for r in self)
+
 
 class LazyResult:
     """A SELECT result as the DB-API hands it out: the first row is fetched at execute time, the others when the caller
@@ -708,6 +723,19 @@ class LazyResult:
 
     def all(self):
         return self._rows()
+
+    fetchall = all
+
+    def first(self):
+        rows = self._rows()
+        return rows[0] if rows else None
+
+    def scalars(self):
+        return Result(r[0] for r in self._rows())
+
+    def scalar(self):
+        rows = self._rows()
+        return rows[0][0] if rows else None
 
     def __getitem__(self, i):
         return [t for _, t in self.pairs][i]
@@ -858,6 +886,9 @@ class ModelSession:
 
     def scalar(self, stmt):
         return self.execute(stmt)[0][0]
+
+    def scalars(self, stmt):
+        return Result(r[0] for r in self.execute(stmt))
 
     def bulk_update_mappings(self, _, dicts):
         self._begin()
